@@ -214,7 +214,7 @@ def replay(binary, wd, tlc_out, tables="plain", adapters="go", workers=None, per
         env = dict(os.environ, VERIF_TLC_OUT=tlc_out, VERIF_STRIDE=str(workers * stride_extra), VERIF_OFFSET=str(i),
                    VERIF_RESULT=res, VERIF_TABLES=tables, VERIF_ADAPTERS=adapters, VERIF_DIR=d,
                    VERIF_PER_WORLD=str(per_world), VERIF_ROTATE="1" if rotate else "0", VERIF_SEED=str(seed))
-        env.update(extra_env or {})
+        env.update({k: val.replace("{i}", str(i)).replace("{wd}", wd) for k, val in (extra_env or {}).items()})
         lf = open(os.path.join(wd, f"{label}_{i}.log"), "w")
         p = subprocess.Popen([binary, "-test.run", "^%s$" % test, "-test.timeout", "0"], env=env, stdout=lf,
                              stderr=subprocess.STDOUT, cwd=wd)
@@ -362,3 +362,42 @@ class Verdict:
             self.prop, self.tier, cov["states"], cov["transitions"], cov["traces_validated_against_impl"],
             cov["evaluations"], len(self.violations), ev["wall_s"]))
         return 1 if self.violations else 0
+
+
+def validate_trace(wd, sd, module, trace_file, timeout=900):
+    """TLC trace validation: returns (accepted, lines, detail).  The trace module must define Spec,
+    a constant TraceFile and a postcondition Accepted (high-water mark of consumed lines)."""
+    name = "TV_" + module
+    with open(os.path.join(sd, name + ".tla"), "w") as fh:
+        fh.write("---- MODULE %s ----\nEXTENDS %s\nMC_TraceFile == \"%s\"\n"
+                 "MC_Accepted == IF Accepted THEN TRUE ELSE PrintT(<<\"REJECTED_AT\", TLCGet(1) + 1>>) /\\ FALSE\n====\n"
+                 % (name, module, trace_file))
+    with open(os.path.join(sd, name + ".cfg"), "w") as fh:
+        fh.write("SPECIFICATION Spec\nCONSTANTS TraceFile <- MC_TraceFile\nPOSTCONDITION MC_Accepted\nCHECK_DEADLOCK FALSE\n")
+    out = os.path.join(wd, name + ".out")
+    env = dict(os.environ, JAVA_TOOL_OPTIONS="-Dtlc2.tool.queue.IStateQueue=StateDeque")
+    cmd = ["java", "-Xmx6g", "-Xss512m", "-XX:+UseParallelGC", "-cp", "/opt/veriftools/tla/tla2tools.jar:" + community_cp(),
+           "tlc2.TLC", "-workers", "1", "-metadir", os.path.join(sd, "meta_" + name), "-config", name + ".cfg", name + ".tla"]
+    t0 = time.time()
+    with open(out, "w") as fh:
+        try:
+            subprocess.run(cmd, cwd=sd, stdout=fh, stderr=subprocess.STDOUT, timeout=timeout, env=env)
+        except subprocess.TimeoutExpired:
+            raise Inconclusive("trace validation timed out")
+    shutil.rmtree(os.path.join(sd, "meta_" + name), ignore_errors=True)
+    txt = open(out, errors="replace").read()
+    nlines = sum(1 for _ in open(trace_file))
+    m = re.search(r'<<"REJECTED_AT", (\d+)>>', txt)
+    st = {"name": name, "generated": 0, "distinct": 0, "wall_s": round(time.time() - t0, 1)}
+    mm = re.search(r"(\d[\d,]*) states generated, (\d[\d,]*) distinct states found", txt)
+    if mm:
+        st["generated"] = int(mm.group(1).replace(",", ""))
+        st["distinct"] = int(mm.group(2).replace(",", ""))
+    if m:
+        log(f"[trace] {module}: REJECTED at line {m.group(1)} of {nlines} ({st['wall_s']}s)")
+        return False, nlines, int(m.group(1)), st
+    if "Model checking completed. No error has been found." in txt:
+        log(f"[trace] {module}: accepted {nlines} lines ({st['wall_s']}s)")
+        return True, nlines, 0, st
+    sys.stderr.write(txt[-3000:])
+    raise Inconclusive("trace validation failed to run")
